@@ -23,7 +23,7 @@
    optimiser corpus), and the stableCallee decision itself. *)
 From Coq Require Import List.
 From Verif Require Import Base Syntax Sem Rewrite Side C01Main.
-From Verif Require Import Opt OptRel OptCorrect.
+From Verif Require Import Opt OptRel OptCorrect Link LinkMachine OptMachine.
 Import ListNotations.
 
 Theorem C07_optimiser_preserves_partial :
@@ -78,3 +78,33 @@ Example C07_opt_ok_example :
   exists out, rewrite body = OK out /\ opt_ok is_lit (XDelay (TLit out)) = true /\
               optimise is_lit (fun _ => None) (XDelay (TLit out)) <> XDelay (TLit out).
 Proof. cbv zeta. eexists. split; [vm_compute; reflexivity|]. split; [vm_compute; reflexivity|]. vm_compute. discriminate. Qed.
+
+(* ... and down to the machine model of seq/seq.go: Start(<optimised expression>) — the expression is
+   evaluated (only value arguments of Bind run user code: literals, by the side condition), the value is
+   started and driven by the consumer's MoveNext / Current loop over the generator object of
+   SeqMachine.v.  Side conditions: those above, and no native Yield left in the optimised expression
+   (lkx, computable, evaluated on every generated program by the optimiser correspondence). *)
+Theorem C07_end_to_end_machine_partial :
+  forall (is_lit : nat -> bool) (eta_cond : nat -> option nat)
+         (U V P : Type)
+         (aden : nat -> U -> outcome U P unit) (cden : nat -> U -> outcome U P bool)
+         (tden : nat -> U -> outcome U P nat) (kval : nat -> nat) (yden : nat -> U -> outcome U P V)
+         (env : nat -> V -> U -> U * bool) (litval : nat -> V) (zeroV : V),
+    (forall v u, is_lit v = true -> yden v u = Ok u (litval v)) ->
+    (forall e f u, eta_cond e = Some f -> cden e u = cden f u) ->
+    forall body, c01_hyps body = true ->
+    exists out, rewrite body = OK out /\
+      (opt_ok is_lit (XDelay (TLit out)) = true ->
+       lkx (forallb (lk KS)) (optimise is_lit eta_cond (XDelay (TLit out))) = true ->
+       forall n u f,
+         run_source aden cden tden kval yden env n body u = Some f -> f <> FStuck ->
+         exists M, forall N F, M <= N -> M <= F ->
+           machine_start U V P aden cden tden kval yden env zeroV KS (optimise is_lit eta_cond (XDelay (TLit out))) u N F = Some f).
+Proof.
+  intros is_lit eta_cond U V P aden cden tden kval yden env litval zeroV Hlit Heta body Hh.
+  destruct (C07_source_to_optimised_partial is_lit eta_cond U V P aden cden tden kval yden env litval Hlit Heta body Hh) as [out [Hr Hc]].
+  exists out. split; [exact Hr|]. intros Hok Hlk n u f Hs Hns.
+  destruct (Hc Hok n u f Hs Hns) as [m Hm].
+  exact (start_run_machine U V P aden cden tden kval yden env zeroV KS _ m u f Hlk Hm Hns).
+Qed.
+Print Assumptions C07_end_to_end_machine_partial.
